@@ -414,6 +414,15 @@ def run(ctx):
         def ban_leaf(f, reg, v):
             calls = [c for c in f.calls() if c.bb in reg]
             inv = any(c.is_("core::ops::function::Fn::call") or c.is_(ERRNEW) for c in calls)
+            if not inv:
+                # the arm may only compute the verdict (`let banned = match .. { Literal(l) => l.contains(&b), .. }`) and the
+                # rejection follow the match: it has to be reachable with what this arm computed (constant propagation from
+                # the arm's entry; an arm that yields a constant `false` does not reach it)
+                entries = [b_ for b_ in reg if any(p_ not in reg for p_ in f.preds(b_))]
+                for e_ in entries:
+                    sx = Sccp(f).run([(e_, {})])
+                    if any(c.bb in sx.exec_blocks and (c.is_("core::ops::function::Fn::call") or c.is_(ERRNEW)) for c in f.calls()):
+                        inv = True
             return (inv, "rejects the banned byte" if inv else "never rejects the banned byte")
 
         def ext_leaf(f, reg, v):
